@@ -235,19 +235,22 @@ func getSignedAttributes(req *signature.SignRequest, algorithm string) (map[stri
 		SigningScheme: req.SigningScheme,
 	}
 
+	// RFC 3339 cannot express a zone offset with seconds: a time in such a zone
+	// would be shifted by the dropped seconds, so times are written in UTC.
+	signingTime, expiry := req.SigningTime.UTC(), req.Expiry.UTC()
 	switch req.SigningScheme {
 	case signature.SigningSchemeX509:
-		jwsProtectedHeader.SigningTime = &req.SigningTime
+		jwsProtectedHeader.SigningTime = &signingTime
 	case signature.SigningSchemeX509SigningAuthority:
 		crit = append(crit, headerKeyAuthenticSigningTime)
-		jwsProtectedHeader.AuthenticSigningTime = &req.SigningTime
+		jwsProtectedHeader.AuthenticSigningTime = &signingTime
 	default:
 		return nil, fmt.Errorf("unsupported SigningScheme: `%v`", req.SigningScheme)
 	}
 
 	if !req.Expiry.IsZero() {
 		crit = append(crit, headerKeyExpiry)
-		jwsProtectedHeader.Expiry = &req.Expiry
+		jwsProtectedHeader.Expiry = &expiry
 	}
 
 	jwsProtectedHeader.Critical = crit
